@@ -288,6 +288,11 @@ def flatten_extends(
 
         c = flatten_extends(c, extends.class_modification, parent=c.parent)
 
+        # A class derived from a class that is itself derived from a built-in
+        # (type V2 = Voltage(...); type Voltage = Real(...)) is built-in as well
+        if c.type == "__builtin":
+            extended_orig_class.type = c.type
+
         # Imports are not inherited (spec 3.5 sections 5.3.1 and 7.1)
         # extended_orig_class.imports.update(c.imports)
         extended_orig_class.classes.update(c.classes)
